@@ -445,14 +445,12 @@ def check_penetrance(ctx, th, q1, qd, fd, exact, n_valid, label='gen'):
                               'a strict criterion' % g, detail)
                 return
         if not exact:
+            # not part of C11 (which only asks for soundness/completeness):
+            # how often the approximation delivers its n_valid genes
             n_ok = sum(1 for g in range(G)
                        if floors_ok(th, q1[g], qd[g], fd[g]))
             if sum(valid) < min(n_valid, G, n_ok):
-                ctx.violation('C11/approx/too-few',
-                              'approximate penetrance returns fewer genes '
-                              'than min(n_valid, genes above the floors)',
-                              detail)
-                return
+                ctx.count('penetrance:fewer-than-n_valid')
     if ctx.driver_ok:
         out = ctx.model('refmarkers.penetrance', {
             'th': ru.th_json(th), 'q1': jfrs(q1), 'qdiff': jfrs(qd),
@@ -613,9 +611,7 @@ def check_validity_mask(ctx, rng, case=None):
                       'distance -1 is not recorded', case)
         return
     if len(rec) < min(n_valid, len(elig)):
-        ctx.violation('C11/validity-mask/too-few', 'fewer genes than '
-                      'min(n_valid, eligible) are recorded', case)
-        return
+        ctx.count('validity-mask:fewer-than-n_valid')   # not part of C11
     if ctx.driver_ok:
         vm = ctx.model('refmarkers.validityFromMask', {
             'nValid': n_valid, 'nGenes': G,
